@@ -55,6 +55,15 @@ def gen_val(rng, d):
     if c < 0.75:
         n = rng.randint(0, 4)
         items = [gen_val(rng, d - 1) for _ in range(n)]
+        if items and rng.random() < 0.2:
+            # look-alikes within one text: an atom, the string with the same characters, the atom again, the float /
+            # integer with the same digits (a reader that shares or caches literals by their text must keep them apart)
+            a = rng.choice(items)
+            if re.fullmatch(r"[-+:A-Za-z0-9.*/<=]+", a):
+                extra = ['"%s"' % a, a]
+                if re.fullmatch(r"-?\d+", a): extra += [a + ".0", a + ".", "0" + a if a[0] != "-" else a, ":" + a, "'" + a]
+                for e in rng.sample(extra, rng.randint(1, len(extra))):
+                    items.insert(rng.randint(0, len(items)), e)
         if items and items[0] in ("defun", "defmacro"): items[0] = "a"
         s = "(" + layout(rng).join(items)
         if n and rng.random() < 0.2:
@@ -82,6 +91,8 @@ def generate(tier, seed):
     # plus isolated boundary atoms
     texts += ["9223372036854775807", "-9223372036854775808", "0.1", "0.30000000000000004", "179769313486231570000000000000.0",
               "0.000001", "4.9406564584124654", '"\\\\"', '"\\""', '"a\\nb"', '""', "(a . b)", "(a b . c)", "((a . b) . (c . d))",
+              '(12 "12")', '("12" 12)', '(-7 "-7" -7.0 "-7.0")', '(a "a" :a ":a")', '(nil "nil" t "t" ("nil"))', '(1.5 "1.5" 1.5)',
+              '("" nil ())', '(0 "0" 0.0 -0.0 "-0.0")', '((12) ("12") (12 . "12") ("12" . 12))',
               "'(quote a)", "#'car", "`(a ,b ,@c)", "(1 . (2 . (3 . nil)))", "(a . (b))"]
     for k, t in enumerate(texts):
         if k % 10 == 0: lines.append("NEW")
